@@ -472,6 +472,22 @@ pub fn e2_spec(id: &str, tier: &str) -> Option<crate::e2::E2Spec> {
                     writer: vec![],
                 });
             }
+            // readers that create tracked structs through different creators after a short-lived
+            // handle left a partially filled struct page behind
+            {
+                let p = progs::readers_creating_structs();
+                scens.push(Scen {
+                    name: "creators-after-dropped-handle-2t".into(),
+                    prog: p,
+                    setup: vec![Op::QClone(4)],
+                    threads: vec![vec![q(1), q(3)], vec![q(3), q(1)]],
+                    phase2_writes: vec![],
+                    phase2: false,
+                    bound: if quick { 1 } else { 2 },
+                    oracle: if once { Oracle::Once } else { Oracle::Readers },
+                    writer: vec![],
+                });
+            }
             Some(E2Spec {
                 id: if once { "C17" } else { "C16" },
                 scens,
